@@ -1,6 +1,7 @@
 /-
-Color488Code, square sizes `L ≥ 1`: the four lines of qubits carrying the logical operators
-(columns `x = 3`, `x = 7`, rows `y = 5`, `y = 1`), their overlaps (pairing table) and weights `2L`.
+Color488Code, all sizes `Lx, Ly ≥ 1`: the four lines of qubits carrying the logical operators
+(columns `x = 3`, `x = 7`: `k3`, `k7`, weight `2Ly`; rows `y = 5`, `y = 1`: `r5`, `r1`, weight `2Lx`),
+their overlaps (pairing table) and weights.
 Core Lean only.
 -/
 import PanqecVerif.Proofs.LatColor488CodeC
@@ -16,10 +17,10 @@ def πx (c : Int) (q : Coord) : Bool := match q with | [a, _] => decide (a = c) 
 def πy (c : Int) (q : Coord) : Bool := match q with | [_, b] => decide (b = c) | _ => false
 
 /-- the keys of the four families of logical operators, in loop order -/
-def k3 (L : Nat) : List Coord := (col3 L).filter (isQubit L L)
-def k7 (L : Nat) : List Coord := (col7 L).filter (isQubit L L)
-def r5 (L : Nat) : List Coord := (row5 L).filter (isQubit L L)
-def r1 (L : Nat) : List Coord := (row1 L).filter (isQubit L L)
+def k3 (Lx Ly : Nat) : List Coord := (col3 Ly).filter (isQubit Lx Ly)
+def k7 (Lx Ly : Nat) : List Coord := (col7 Ly).filter (isQubit Lx Ly)
+def r5 (Lx Ly : Nat) : List Coord := (row5 Lx).filter (isQubit Lx Ly)
+def r1 (Lx Ly : Nat) : List Coord := (row1 Lx).filter (isQubit Lx Ly)
 
 theorem nodup_col3 (L : Nat) : (col3 L).Nodup :=
   nodup_map_pair _ (fun a b h => by simpa using h) (nodup_pyRangeStep _ _ _ (by decide))
@@ -30,19 +31,19 @@ theorem nodup_row5 (L : Nat) : (row5 L).Nodup :=
 theorem nodup_row1 (L : Nat) : (row1 L).Nodup :=
   nodup_map_pair _ (fun a b h => by simpa using h) (nodup_pyRangeStep _ _ _ (by decide))
 
-theorem nodup_k3 (L : Nat) : (k3 L).Nodup := (nodup_col3 L).sublist List.filter_sublist
-theorem nodup_k7 (L : Nat) : (k7 L).Nodup := (nodup_col7 L).sublist List.filter_sublist
-theorem nodup_r5 (L : Nat) : (r5 L).Nodup := (nodup_row5 L).sublist List.filter_sublist
-theorem nodup_r1 (L : Nat) : (r1 L).Nodup := (nodup_row1 L).sublist List.filter_sublist
+theorem nodup_k3 (Lx Ly : Nat) : (k3 Lx Ly).Nodup := (nodup_col3 Ly).sublist List.filter_sublist
+theorem nodup_k7 (Lx Ly : Nat) : (k7 Lx Ly).Nodup := (nodup_col7 Ly).sublist List.filter_sublist
+theorem nodup_r5 (Lx Ly : Nat) : (r5 Lx Ly).Nodup := (nodup_row5 Lx).sublist List.filter_sublist
+theorem nodup_r1 (Lx Ly : Nat) : (r1 Lx Ly).Nodup := (nodup_row1 Lx).sublist List.filter_sublist
 
-theorem filter_qubits {L : Nat} {l : List Coord} : ∀ q ∈ l.filter (isQubit L L), q ∈ qubits L L := by
+theorem filter_qubits {Lx Ly : Nat} {l : List Coord} : ∀ q ∈ l.filter (isQubit Lx Ly), q ∈ qubits Lx Ly := by
   intro q hq
   have := (List.mem_filter.mp hq).2
   unfold isQubit at this
   exact isIn_iff.mp this
 
 /-- a line is the set of qubits with the given `x` (or `y`) -/
-theorem mem_k3 {L : Nat} (hL : 1 ≤ L) (q : Coord) : q ∈ k3 L ↔ (q ∈ qubits L L ∧ πx 3 q = true) := by
+theorem mem_k3 {Lx Ly : Nat} (hx : 1 ≤ Lx) (hy : 1 ≤ Ly) (q : Coord) : q ∈ k3 Lx Ly ↔ (q ∈ qubits Lx Ly ∧ πx 3 q = true) := by
   unfold k3 col3
   rw [List.mem_filter]; unfold isQubit; rw [isIn_iff]
   constructor
@@ -51,7 +52,7 @@ theorem mem_k3 {L : Nat} (hL : 1 ≤ L) (q : Coord) : q ∈ k3 L ↔ (q ∈ qubi
     obtain ⟨y, _, rfl⟩ := h
     exact ⟨hq, by simp [πx]⟩
   · rintro ⟨hq, hp⟩
-    obtain ⟨a, b, rfl, h⟩ := (mem_qubits hL).mp hq
+    obtain ⟨a, b, rfl, h⟩ := (mem_qubits hx hy).mp hq
     simp only [πx, decide_eq_true_eq] at hp
     subst hp
     refine ⟨?_, hq⟩
@@ -59,7 +60,7 @@ theorem mem_k3 {L : Nat} (hL : 1 ≤ L) (q : Coord) : q ∈ k3 L ↔ (q ∈ qubi
     unfold IsQ at h
     exact ⟨b, by omega, rfl⟩
 
-theorem mem_k7 {L : Nat} (hL : 1 ≤ L) (q : Coord) : q ∈ k7 L ↔ (q ∈ qubits L L ∧ πx 7 q = true) := by
+theorem mem_k7 {Lx Ly : Nat} (hx : 1 ≤ Lx) (hy : 1 ≤ Ly) (q : Coord) : q ∈ k7 Lx Ly ↔ (q ∈ qubits Lx Ly ∧ πx 7 q = true) := by
   unfold k7 col7
   rw [List.mem_filter]; unfold isQubit; rw [isIn_iff]
   constructor
@@ -68,7 +69,7 @@ theorem mem_k7 {L : Nat} (hL : 1 ≤ L) (q : Coord) : q ∈ k7 L ↔ (q ∈ qubi
     obtain ⟨y, _, rfl⟩ := h
     exact ⟨hq, by simp [πx]⟩
   · rintro ⟨hq, hp⟩
-    obtain ⟨a, b, rfl, h⟩ := (mem_qubits hL).mp hq
+    obtain ⟨a, b, rfl, h⟩ := (mem_qubits hx hy).mp hq
     simp only [πx, decide_eq_true_eq] at hp
     subst hp
     refine ⟨?_, hq⟩
@@ -76,7 +77,7 @@ theorem mem_k7 {L : Nat} (hL : 1 ≤ L) (q : Coord) : q ∈ k7 L ↔ (q ∈ qubi
     unfold IsQ at h
     exact ⟨b, by omega, rfl⟩
 
-theorem mem_r5 {L : Nat} (hL : 1 ≤ L) (q : Coord) : q ∈ r5 L ↔ (q ∈ qubits L L ∧ πy 5 q = true) := by
+theorem mem_r5 {Lx Ly : Nat} (hx : 1 ≤ Lx) (hy : 1 ≤ Ly) (q : Coord) : q ∈ r5 Lx Ly ↔ (q ∈ qubits Lx Ly ∧ πy 5 q = true) := by
   unfold r5 row5
   rw [List.mem_filter]; unfold isQubit; rw [isIn_iff]
   constructor
@@ -85,7 +86,7 @@ theorem mem_r5 {L : Nat} (hL : 1 ≤ L) (q : Coord) : q ∈ r5 L ↔ (q ∈ qubi
     obtain ⟨y, _, rfl⟩ := h
     exact ⟨hq, by simp [πy]⟩
   · rintro ⟨hq, hp⟩
-    obtain ⟨a, b, rfl, h⟩ := (mem_qubits hL).mp hq
+    obtain ⟨a, b, rfl, h⟩ := (mem_qubits hx hy).mp hq
     simp only [πy, decide_eq_true_eq] at hp
     subst hp
     refine ⟨?_, hq⟩
@@ -93,7 +94,7 @@ theorem mem_r5 {L : Nat} (hL : 1 ≤ L) (q : Coord) : q ∈ r5 L ↔ (q ∈ qubi
     unfold IsQ at h
     exact ⟨a, by omega, rfl⟩
 
-theorem mem_r1 {L : Nat} (hL : 1 ≤ L) (q : Coord) : q ∈ r1 L ↔ (q ∈ qubits L L ∧ πy 1 q = true) := by
+theorem mem_r1 {Lx Ly : Nat} (hx : 1 ≤ Lx) (hy : 1 ≤ Ly) (q : Coord) : q ∈ r1 Lx Ly ↔ (q ∈ qubits Lx Ly ∧ πy 1 q = true) := by
   unfold r1 row1
   rw [List.mem_filter]; unfold isQubit; rw [isIn_iff]
   constructor
@@ -102,7 +103,7 @@ theorem mem_r1 {L : Nat} (hL : 1 ≤ L) (q : Coord) : q ∈ r1 L ↔ (q ∈ qubi
     obtain ⟨y, _, rfl⟩ := h
     exact ⟨hq, by simp [πy]⟩
   · rintro ⟨hq, hp⟩
-    obtain ⟨a, b, rfl, h⟩ := (mem_qubits hL).mp hq
+    obtain ⟨a, b, rfl, h⟩ := (mem_qubits hx hy).mp hq
     simp only [πy, decide_eq_true_eq] at hp
     subst hp
     refine ⟨?_, hq⟩
@@ -111,23 +112,23 @@ theorem mem_r1 {L : Nat} (hL : 1 ≤ L) (q : Coord) : q ∈ r1 L ↔ (q ∈ qubi
     exact ⟨a, by omega, rfl⟩
 
 /-- explicit membership -/
-theorem mem_k3' {L : Nat} (hL : 1 ≤ L) {a b : Int} : [a, b] ∈ k3 L ↔ (a = 3 ∧ IsQ L a b) := by
-  rw [mem_k3 hL, mem_qubits' hL]; simp only [πx, decide_eq_true_eq]; exact and_comm
-theorem mem_k7' {L : Nat} (hL : 1 ≤ L) {a b : Int} : [a, b] ∈ k7 L ↔ (a = 7 ∧ IsQ L a b) := by
-  rw [mem_k7 hL, mem_qubits' hL]; simp only [πx, decide_eq_true_eq]; exact and_comm
-theorem mem_r5' {L : Nat} (hL : 1 ≤ L) {a b : Int} : [a, b] ∈ r5 L ↔ (b = 5 ∧ IsQ L a b) := by
-  rw [mem_r5 hL, mem_qubits' hL]; simp only [πy, decide_eq_true_eq]; exact and_comm
-theorem mem_r1' {L : Nat} (hL : 1 ≤ L) {a b : Int} : [a, b] ∈ r1 L ↔ (b = 1 ∧ IsQ L a b) := by
-  rw [mem_r1 hL, mem_qubits' hL]; simp only [πy, decide_eq_true_eq]; exact and_comm
+theorem mem_k3' {Lx Ly : Nat} (hx : 1 ≤ Lx) (hy : 1 ≤ Ly) {a b : Int} : [a, b] ∈ k3 Lx Ly ↔ (a = 3 ∧ IsQ Lx Ly a b) := by
+  rw [mem_k3 hx hy, mem_qubits' hx hy]; simp only [πx, decide_eq_true_eq]; exact and_comm
+theorem mem_k7' {Lx Ly : Nat} (hx : 1 ≤ Lx) (hy : 1 ≤ Ly) {a b : Int} : [a, b] ∈ k7 Lx Ly ↔ (a = 7 ∧ IsQ Lx Ly a b) := by
+  rw [mem_k7 hx hy, mem_qubits' hx hy]; simp only [πx, decide_eq_true_eq]; exact and_comm
+theorem mem_r5' {Lx Ly : Nat} (hx : 1 ≤ Lx) (hy : 1 ≤ Ly) {a b : Int} : [a, b] ∈ r5 Lx Ly ↔ (b = 5 ∧ IsQ Lx Ly a b) := by
+  rw [mem_r5 hx hy, mem_qubits' hx hy]; simp only [πy, decide_eq_true_eq]; exact and_comm
+theorem mem_r1' {Lx Ly : Nat} (hx : 1 ≤ Lx) (hy : 1 ≤ Ly) {a b : Int} : [a, b] ∈ r1 Lx Ly ↔ (b = 1 ∧ IsQ Lx Ly a b) := by
+  rw [mem_r1 hx hy, mem_qubits' hx hy]; simp only [πy, decide_eq_true_eq]; exact and_comm
 
 /-- a face meets a line of qubits in an even number of qubits -/
-theorem supp_line_even {L : Nat} (hL : 1 ≤ L) {x y : Int} (hf : IsF L x y) (K : List Coord)
-    (π : Coord → Bool) (hK : ∀ q, q ∈ K ↔ (q ∈ qubits L L ∧ π q = true))
+theorem supp_line_even {Lx Ly : Nat} (hx : 1 ≤ Lx) (hy : 1 ≤ Ly) {x y : Int} (hf : IsF Lx Ly x y) (K : List Coord)
+    (π : Coord → Bool) (hK : ∀ q, q ∈ K ↔ (q ∈ qubits Lx Ly ∧ π q = true))
     (h : (∀ a b b', π [a, b] = π [a, b']) ∨ (∀ a a' b, π [a, b] = π [a', b])) :
-    interCount (supp L x y) K % 2 = 0 := by
-  rw [interCount_pred (supp L x y) K π (qubits L L)
-    (fun q hq => (mem_qubits_faces hL).mpr ⟨x, y, hf, hq⟩) hK]
-  exact countP_supp_even L x y π h
+    interCount (supp Lx Ly x y) K % 2 = 0 := by
+  rw [interCount_pred (supp Lx Ly x y) K π (qubits Lx Ly)
+    (fun q hq => (mem_qubits_faces hx hy).mpr ⟨x, y, hf, hq⟩) hK]
+  exact countP_supp_even Lx Ly x y π h
 
 theorem πx_col (c : Int) : (∀ a b b', πx c [a, b] = πx c [a, b']) ∨
     (∀ a a' b, πx c [a, b] = πx c [a', b]) := Or.inl (fun _ _ _ => rfl)
@@ -136,9 +137,9 @@ theorem πy_row (c : Int) : (∀ a b b', πy c [a, b] = πy c [a, b']) ∨
 
 /-! ### overlaps of two lines -/
 
-theorem line_shape {L : Nat} (hL : 1 ≤ L) {K : List Coord} {π : Coord → Bool}
-    (hK : ∀ q, q ∈ K ↔ (q ∈ qubits L L ∧ π q = true)) {q : Coord} (h : q ∈ K) :
-    ∃ a b, q = [a, b] ∧ IsQ L a b := (mem_qubits hL).mp ((hK q).mp h).1
+theorem line_shape {Lx Ly : Nat} (hx : 1 ≤ Lx) (hy : 1 ≤ Ly) {K : List Coord} {π : Coord → Bool}
+    (hK : ∀ q, q ∈ K ↔ (q ∈ qubits Lx Ly ∧ π q = true)) {q : Coord} (h : q ∈ K) :
+    ∃ a b, q = [a, b] ∧ IsQ Lx Ly a b := (mem_qubits hx hy).mp ((hK q).mp h).1
 
 /-- two lines meeting in exactly one qubit -/
 theorem cross_one {L : Nat} (hL : 1 ≤ L) (A B : List Coord) (hA : A.Nodup) (q0 : Coord)
@@ -155,65 +156,65 @@ theorem cross_zero (A B : List Coord) (hu : ∀ q ∈ A, q ∈ B → False) : in
   intro a ha h
   exact hu a ha (by simpa using h)
 
-theorem k3_r5 {L : Nat} (hL : 1 ≤ L) : interCount (k3 L) (r5 L) = 1 := by
-  apply cross_one hL _ _ (nodup_k3 L) [3, 5]
-  · rw [mem_k3' hL]; unfold IsQ; omega
-  · rw [mem_r5' hL]; unfold IsQ; omega
+theorem k3_r5 {Lx Ly : Nat} (hx : 1 ≤ Lx) (hy : 1 ≤ Ly) : interCount (k3 Lx Ly) (r5 Lx Ly) = 1 := by
+  apply cross_one hx _ _ (nodup_k3 Lx Ly) [3, 5]
+  · rw [mem_k3' hx hy]; unfold IsQ; omega
+  · rw [mem_r5' hx hy]; unfold IsQ; omega
   · intro q hq hq'
-    obtain ⟨a, b, rfl, _⟩ := line_shape hL (mem_k3 hL) hq
-    rw [mem_k3' hL] at hq; rw [mem_r5' hL] at hq'
+    obtain ⟨a, b, rfl, _⟩ := line_shape hx hy (mem_k3 hx hy) hq
+    rw [mem_k3' hx hy] at hq; rw [mem_r5' hx hy] at hq'
     rw [hq.1, hq'.1]
 
-theorem r5_k3 {L : Nat} (hL : 1 ≤ L) : interCount (r5 L) (k3 L) = 1 := by
-  rw [interCount_comm _ _ (nodup_r5 L) (nodup_k3 L)]; exact k3_r5 hL
+theorem r5_k3 {Lx Ly : Nat} (hx : 1 ≤ Lx) (hy : 1 ≤ Ly) : interCount (r5 Lx Ly) (k3 Lx Ly) = 1 := by
+  rw [interCount_comm _ _ (nodup_r5 Lx Ly) (nodup_k3 Lx Ly)]; exact k3_r5 hx hy
 
-theorem k7_r1 {L : Nat} (hL : 1 ≤ L) : interCount (k7 L) (r1 L) = 1 := by
-  apply cross_one hL _ _ (nodup_k7 L) [7, 1]
-  · rw [mem_k7' hL]; unfold IsQ; omega
-  · rw [mem_r1' hL]; unfold IsQ; omega
+theorem k7_r1 {Lx Ly : Nat} (hx : 1 ≤ Lx) (hy : 1 ≤ Ly) : interCount (k7 Lx Ly) (r1 Lx Ly) = 1 := by
+  apply cross_one hx _ _ (nodup_k7 Lx Ly) [7, 1]
+  · rw [mem_k7' hx hy]; unfold IsQ; omega
+  · rw [mem_r1' hx hy]; unfold IsQ; omega
   · intro q hq hq'
-    obtain ⟨a, b, rfl, _⟩ := line_shape hL (mem_k7 hL) hq
-    rw [mem_k7' hL] at hq; rw [mem_r1' hL] at hq'
+    obtain ⟨a, b, rfl, _⟩ := line_shape hx hy (mem_k7 hx hy) hq
+    rw [mem_k7' hx hy] at hq; rw [mem_r1' hx hy] at hq'
     rw [hq.1, hq'.1]
 
-theorem r1_k7 {L : Nat} (hL : 1 ≤ L) : interCount (r1 L) (k7 L) = 1 := by
-  rw [interCount_comm _ _ (nodup_r1 L) (nodup_k7 L)]; exact k7_r1 hL
+theorem r1_k7 {Lx Ly : Nat} (hx : 1 ≤ Lx) (hy : 1 ≤ Ly) : interCount (r1 Lx Ly) (k7 Lx Ly) = 1 := by
+  rw [interCount_comm _ _ (nodup_r1 Lx Ly) (nodup_k7 Lx Ly)]; exact k7_r1 hx hy
 
-theorem k3_r1 {L : Nat} (hL : 1 ≤ L) : interCount (k3 L) (r1 L) = 0 := by
+theorem k3_r1 {Lx Ly : Nat} (hx : 1 ≤ Lx) (hy : 1 ≤ Ly) : interCount (k3 Lx Ly) (r1 Lx Ly) = 0 := by
   apply cross_zero
   intro q hq hq'
-  obtain ⟨a, b, rfl, _⟩ := line_shape hL (mem_k3 hL) hq
-  rw [mem_k3' hL] at hq; rw [mem_r1' hL] at hq'
+  obtain ⟨a, b, rfl, _⟩ := line_shape hx hy (mem_k3 hx hy) hq
+  rw [mem_k3' hx hy] at hq; rw [mem_r1' hx hy] at hq'
   have := hq.2; unfold IsQ at this; omega
-theorem r1_k3 {L : Nat} (hL : 1 ≤ L) : interCount (r1 L) (k3 L) = 0 := by
-  rw [interCount_comm _ _ (nodup_r1 L) (nodup_k3 L)]; exact k3_r1 hL
+theorem r1_k3 {Lx Ly : Nat} (hx : 1 ≤ Lx) (hy : 1 ≤ Ly) : interCount (r1 Lx Ly) (k3 Lx Ly) = 0 := by
+  rw [interCount_comm _ _ (nodup_r1 Lx Ly) (nodup_k3 Lx Ly)]; exact k3_r1 hx hy
 
-theorem k7_r5 {L : Nat} (hL : 1 ≤ L) : interCount (k7 L) (r5 L) = 0 := by
+theorem k7_r5 {Lx Ly : Nat} (hx : 1 ≤ Lx) (hy : 1 ≤ Ly) : interCount (k7 Lx Ly) (r5 Lx Ly) = 0 := by
   apply cross_zero
   intro q hq hq'
-  obtain ⟨a, b, rfl, _⟩ := line_shape hL (mem_k7 hL) hq
-  rw [mem_k7' hL] at hq; rw [mem_r5' hL] at hq'
+  obtain ⟨a, b, rfl, _⟩ := line_shape hx hy (mem_k7 hx hy) hq
+  rw [mem_k7' hx hy] at hq; rw [mem_r5' hx hy] at hq'
   have := hq.2; unfold IsQ at this; omega
-theorem r5_k7 {L : Nat} (hL : 1 ≤ L) : interCount (r5 L) (k7 L) = 0 := by
-  rw [interCount_comm _ _ (nodup_r5 L) (nodup_k7 L)]; exact k7_r5 hL
+theorem r5_k7 {Lx Ly : Nat} (hx : 1 ≤ Lx) (hy : 1 ≤ Ly) : interCount (r5 Lx Ly) (k7 Lx Ly) = 0 := by
+  rw [interCount_comm _ _ (nodup_r5 Lx Ly) (nodup_k7 Lx Ly)]; exact k7_r5 hx hy
 
-theorem k3_k7 {L : Nat} (hL : 1 ≤ L) : interCount (k3 L) (k7 L) = 0 := by
+theorem k3_k7 {Lx Ly : Nat} (hx : 1 ≤ Lx) (hy : 1 ≤ Ly) : interCount (k3 Lx Ly) (k7 Lx Ly) = 0 := by
   apply cross_zero
   intro q hq hq'
-  obtain ⟨a, b, rfl, _⟩ := line_shape hL (mem_k3 hL) hq
-  rw [mem_k3' hL] at hq; rw [mem_k7' hL] at hq'
+  obtain ⟨a, b, rfl, _⟩ := line_shape hx hy (mem_k3 hx hy) hq
+  rw [mem_k3' hx hy] at hq; rw [mem_k7' hx hy] at hq'
   omega
-theorem k7_k3 {L : Nat} (hL : 1 ≤ L) : interCount (k7 L) (k3 L) = 0 := by
-  rw [interCount_comm _ _ (nodup_k7 L) (nodup_k3 L)]; exact k3_k7 hL
+theorem k7_k3 {Lx Ly : Nat} (hx : 1 ≤ Lx) (hy : 1 ≤ Ly) : interCount (k7 Lx Ly) (k3 Lx Ly) = 0 := by
+  rw [interCount_comm _ _ (nodup_k7 Lx Ly) (nodup_k3 Lx Ly)]; exact k3_k7 hx hy
 
-theorem r5_r1 {L : Nat} (hL : 1 ≤ L) : interCount (r5 L) (r1 L) = 0 := by
+theorem r5_r1 {Lx Ly : Nat} (hx : 1 ≤ Lx) (hy : 1 ≤ Ly) : interCount (r5 Lx Ly) (r1 Lx Ly) = 0 := by
   apply cross_zero
   intro q hq hq'
-  obtain ⟨a, b, rfl, _⟩ := line_shape hL (mem_r5 hL) hq
-  rw [mem_r5' hL] at hq; rw [mem_r1' hL] at hq'
+  obtain ⟨a, b, rfl, _⟩ := line_shape hx hy (mem_r5 hx hy) hq
+  rw [mem_r5' hx hy] at hq; rw [mem_r1' hx hy] at hq'
   omega
-theorem r1_r5 {L : Nat} (hL : 1 ≤ L) : interCount (r1 L) (r5 L) = 0 := by
-  rw [interCount_comm _ _ (nodup_r1 L) (nodup_r5 L)]; exact r5_r1 hL
+theorem r1_r5 {Lx Ly : Nat} (hx : 1 ≤ Lx) (hy : 1 ≤ Ly) : interCount (r1 Lx Ly) (r5 Lx Ly) = 0 := by
+  rw [interCount_comm _ _ (nodup_r1 Lx Ly) (nodup_r5 Lx Ly)]; exact r5_r1 hx hy
 
 /-! ### weights -/
 
@@ -243,68 +244,68 @@ theorem nodup_niceLine (f : Int → Coord) (hf : ∀ a b, f a = f b → a = b) (
     simp only [List.mem_cons, List.not_mem_nil, or_false] at hq hr
     rcases hq with rfl | rfl <;> rcases hr with e | e <;> have := hf _ _ e <;> omega
 
-theorem length_k3 {L : Nat} (hL : 1 ≤ L) : (k3 L).length = 2 * L := by
-  rw [← length_niceLine (fun b => [3, b]) 3 5 L]
-  apply length_eq_of_mem_iff (nodup_k3 L)
-    (nodup_niceLine _ (fun a b h => by simpa using h) 3 5 (by omega) (by omega) (by omega) L)
+theorem length_k3 {Lx Ly : Nat} (hx : 1 ≤ Lx) (hy : 1 ≤ Ly) : (k3 Lx Ly).length = 2 * Ly := by
+  rw [← length_niceLine (fun b => [3, b]) 3 5 Ly]
+  apply length_eq_of_mem_iff (nodup_k3 Lx Ly)
+    (nodup_niceLine _ (fun a b h => by simpa using h) 3 5 (by omega) (by omega) (by omega) Ly)
   intro q
   rw [mem_niceLine]
   constructor
   · intro h
-    obtain ⟨a, b, rfl, _⟩ := line_shape hL (mem_k3 hL) h
-    rw [mem_k3' hL] at h
+    obtain ⟨a, b, rfl, _⟩ := line_shape hx hy (mem_k3 hx hy) h
+    rw [mem_k3' hx hy] at h
     obtain ⟨rfl, hq⟩ := h
     unfold IsQ at hq
     refine ⟨(b / 8).toNat, by omega, ?_⟩
     simp only [List.cons.injEq, true_and, and_true]; omega
-  · rintro ⟨i, hi, rfl | rfl⟩ <;> rw [mem_k3' hL] <;> unfold IsQ <;> omega
+  · rintro ⟨i, hi, rfl | rfl⟩ <;> rw [mem_k3' hx hy] <;> unfold IsQ <;> omega
 
-theorem length_k7 {L : Nat} (hL : 1 ≤ L) : (k7 L).length = 2 * L := by
-  rw [← length_niceLine (fun b => [7, b]) 1 7 L]
-  apply length_eq_of_mem_iff (nodup_k7 L)
-    (nodup_niceLine _ (fun a b h => by simpa using h) 1 7 (by omega) (by omega) (by omega) L)
+theorem length_k7 {Lx Ly : Nat} (hx : 1 ≤ Lx) (hy : 1 ≤ Ly) : (k7 Lx Ly).length = 2 * Ly := by
+  rw [← length_niceLine (fun b => [7, b]) 1 7 Ly]
+  apply length_eq_of_mem_iff (nodup_k7 Lx Ly)
+    (nodup_niceLine _ (fun a b h => by simpa using h) 1 7 (by omega) (by omega) (by omega) Ly)
   intro q
   rw [mem_niceLine]
   constructor
   · intro h
-    obtain ⟨a, b, rfl, _⟩ := line_shape hL (mem_k7 hL) h
-    rw [mem_k7' hL] at h
+    obtain ⟨a, b, rfl, _⟩ := line_shape hx hy (mem_k7 hx hy) h
+    rw [mem_k7' hx hy] at h
     obtain ⟨rfl, hq⟩ := h
     unfold IsQ at hq
     refine ⟨(b / 8).toNat, by omega, ?_⟩
     simp only [List.cons.injEq, true_and, and_true]; omega
-  · rintro ⟨i, hi, rfl | rfl⟩ <;> rw [mem_k7' hL] <;> unfold IsQ <;> omega
+  · rintro ⟨i, hi, rfl | rfl⟩ <;> rw [mem_k7' hx hy] <;> unfold IsQ <;> omega
 
-theorem length_r5 {L : Nat} (hL : 1 ≤ L) : (r5 L).length = 2 * L := by
-  rw [← length_niceLine (fun a => [a, 5]) 3 5 L]
-  apply length_eq_of_mem_iff (nodup_r5 L)
-    (nodup_niceLine _ (fun a b h => by simpa using h) 3 5 (by omega) (by omega) (by omega) L)
+theorem length_r5 {Lx Ly : Nat} (hx : 1 ≤ Lx) (hy : 1 ≤ Ly) : (r5 Lx Ly).length = 2 * Lx := by
+  rw [← length_niceLine (fun a => [a, 5]) 3 5 Lx]
+  apply length_eq_of_mem_iff (nodup_r5 Lx Ly)
+    (nodup_niceLine _ (fun a b h => by simpa using h) 3 5 (by omega) (by omega) (by omega) Lx)
   intro q
   rw [mem_niceLine]
   constructor
   · intro h
-    obtain ⟨a, b, rfl, _⟩ := line_shape hL (mem_r5 hL) h
-    rw [mem_r5' hL] at h
+    obtain ⟨a, b, rfl, _⟩ := line_shape hx hy (mem_r5 hx hy) h
+    rw [mem_r5' hx hy] at h
     obtain ⟨rfl, hq⟩ := h
     unfold IsQ at hq
     refine ⟨(a / 8).toNat, by omega, ?_⟩
     simp only [List.cons.injEq, and_true]; omega
-  · rintro ⟨i, hi, rfl | rfl⟩ <;> rw [mem_r5' hL] <;> unfold IsQ <;> omega
+  · rintro ⟨i, hi, rfl | rfl⟩ <;> rw [mem_r5' hx hy] <;> unfold IsQ <;> omega
 
-theorem length_r1 {L : Nat} (hL : 1 ≤ L) : (r1 L).length = 2 * L := by
-  rw [← length_niceLine (fun a => [a, 1]) 1 7 L]
-  apply length_eq_of_mem_iff (nodup_r1 L)
-    (nodup_niceLine _ (fun a b h => by simpa using h) 1 7 (by omega) (by omega) (by omega) L)
+theorem length_r1 {Lx Ly : Nat} (hx : 1 ≤ Lx) (hy : 1 ≤ Ly) : (r1 Lx Ly).length = 2 * Lx := by
+  rw [← length_niceLine (fun a => [a, 1]) 1 7 Lx]
+  apply length_eq_of_mem_iff (nodup_r1 Lx Ly)
+    (nodup_niceLine _ (fun a b h => by simpa using h) 1 7 (by omega) (by omega) (by omega) Lx)
   intro q
   rw [mem_niceLine]
   constructor
   · intro h
-    obtain ⟨a, b, rfl, _⟩ := line_shape hL (mem_r1 hL) h
-    rw [mem_r1' hL] at h
+    obtain ⟨a, b, rfl, _⟩ := line_shape hx hy (mem_r1 hx hy) h
+    rw [mem_r1' hx hy] at h
     obtain ⟨rfl, hq⟩ := h
     unfold IsQ at hq
     refine ⟨(a / 8).toNat, by omega, ?_⟩
     simp only [List.cons.injEq, and_true]; omega
-  · rintro ⟨i, hi, rfl | rfl⟩ <;> rw [mem_r1' hL] <;> unfold IsQ <;> omega
+  · rintro ⟨i, hi, rfl | rfl⟩ <;> rw [mem_r1' hx hy] <;> unfold IsQ <;> omega
 
 end Panqec.Color488Code
